@@ -182,9 +182,12 @@ theorem QO_connOpenStream (h : QO c) : QO (connOpenStream c) := by
   all_goals (first | exact fun x h => h | (intro x hx; exact (List.dropWhile_sublist _).subset hx) | (intro x hx; cases hx))
 theorem QO_prepareReset {o} (h : QO c) : QO (prepareReset c o) := h
 theorem QO_negotiationSuccess (h : QO c) : QO (negotiationSuccess c) := by
-  have hs : OwnOk .smStrophe c := .inl rfl
-  c4auto negotiationSuccess
-  all_goals (first | exact fun x h => h | (intro x hx; exact (List.dropWhile_sublist _).subset hx) | (intro x hx; cases hx))
+  have h1 : QO (notify { c with negotiated := true } .connect) := QO_notify (c := { c with negotiated := true }) h
+  unfold negotiationSuccess
+  dsimp only
+  refine pred_ite (P := QO) (fun _ => ?_) (fun _ => h1)
+  unfold sendStanza pushRaw
+  refine pred_ite (P := QO) (fun _ => QO_pushUserItem h1 rfl) (fun _ => h1)
 theorem QO_saslChild {t} (h : QO c) : QO (saslChild c t) := by
   have hs : OwnOk .smStrophe c := .inl rfl
   c4auto saslChild
@@ -665,6 +668,7 @@ theorem TJ_step (op : Op) (hop : match op with | .usend it | .uraw it | .urawstr
   | setSched l d => exact h.2
   | tick ms => exact h.2
   | setSmCallback => exact h.2
+  | setSendOnConnect on => exact h.2
   | setFlags f => exact QO_setFlags h.2
   | usend it => exact QO_xmppSend h.2 hop
   | uraw it => exact QO_xmppSendRaw h.2 hop
